@@ -108,6 +108,8 @@ Definition ops_C09a : list (string * opfun) :=
    args: [row_count option: empty | n] then per field one group [type code; nullable] and per column one
    group [type code; len; null_count] : [nfields; ncols] is the second group. Output [accept]. *)
 Definition batch_ok (rc : option Z) (fields cols : list (list Z)) : bool :=
+  (* "must either specify a row count or at least one column" *)
+  negb (match rc, cols with None, [] => true | _, _ => false end) &&
   Nat.eqb (List.length fields) (List.length cols) &&
   let row_count := match rc with Some n => n | None => match cols with c :: _ => nth 1 c 0%Z | [] => 0%Z end end in
   forallb (fun p : list Z * list Z =>
